@@ -108,7 +108,7 @@ META = dict(functions=th.TREE_FUNCTIONS + ["BuildOptions -> node flags in grapht
                                             "FixedKeyDictNode._child_edits", "KeyValuePairNode.edits"],
             stubs=th.TREE_STUBS, assumptions=th.TREE_ASSUME, files=th.TREE_FILES)
 bounds_text = th.tree_bounds_text
-REGIONS = dict(mset_duplicates=lambda w, f: th.has_duplicate_members(w))
+REGIONS = dict(mset_duplicates=lambda w, f: th.matcher_collapse_region(w))
 
 
 def pre(tier, seed):
